@@ -377,6 +377,8 @@ pub struct Call {
 }
 
 thread_local! {
+    /// completion time of every parse call of the current thread (for histories in which time passes)
+    pub static PARSE_TIMES: RefCell<Vec<std::time::Instant>> = RefCell::new(Vec::new());
     static CALLS: RefCell<Vec<Call>> = RefCell::new(Vec::new());
     static MAGIC: RefCell<Value> = RefCell::new(Value::Null);
 }
@@ -683,6 +685,8 @@ pub enum POp {
     SetAssertion(String),
     /// parse token `tok` under key `key` (indices into the arrays given to `run_parser`)
     Parse { tok: usize, key: usize },
+    /// let time pass: sleep until the given instant
+    SleepUntil(std::time::Instant),
 }
 
 macro_rules! apply_check_claim {
@@ -745,6 +749,13 @@ macro_rules! run_parser_impl {
                         Err(e) => classify_parse(e),
                     });
                     outs.push((r, take_calls()));
+                    PARSE_TIMES.with(|t| t.borrow_mut().push(std::time::Instant::now()));
+                }
+                POp::SleepUntil(t) => {
+                    let now = std::time::Instant::now();
+                    if *t > now {
+                        std::thread::sleep(*t - now);
+                    }
                 }
             }
         }
